@@ -473,6 +473,14 @@ func runCRLCase(c *core.Ctx, r *rand.Rand, id string) {
 		variant = "no-skid"
 	}
 	ca, err := caFor(k, variant)
+	if err == nil && variant == "std" && r.IntN(2) == 0 {
+		// a parsed issuer that was itself issued by another CA (any family) with any algorithm valid for that parent
+		parent := keys[r.IntN(len(keys))]
+		palg := pickSigAlg(r, parent)
+		ca, err = intermediateFor(parent, palg, k)
+		variant = "issued-by/" + parent.ID + "/" + palg.Name
+		c.Count("crl_issuer_is_an_issued_certificate", 1)
+	}
 	if err != nil {
 		c.Violation("crl-roundtrip:CA-with-default-algorithm-failed:"+k.Family, err.Error(), id, desc)
 		return
@@ -722,6 +730,13 @@ func runRLCase(c *core.Ctx, r *rand.Rand, id string) {
 	alg := pickSigAlg(r, k)
 	desc := map[string]any{"object": "RevocationList", "key": k.ID, "signature_algorithm": alg.Name}
 	ca, err := caFor(k, "std")
+	if err == nil && r.IntN(2) == 0 {
+		parent := keys[r.IntN(len(keys))]
+		palg := pickSigAlg(r, parent)
+		ca, err = intermediateFor(parent, palg, k)
+		desc["issuer_issued_by"] = parent.ID + "/" + palg.Name
+		c.Count("rl_issuer_is_an_issued_certificate", 1)
+	}
 	if err != nil {
 		c.Violation("rl-roundtrip:CA-with-default-algorithm-failed:"+k.Family, err.Error(), id, desc)
 		return
